@@ -371,6 +371,15 @@ func report(c *ev.Ctx, role, text string, f finding) {
 var typeRoots = []string{"@t", "{\n  \"k\": @t\n}", "[\n  @t\n]",
 	"{\n  @t : 1\n}", "{ // {allOf: \"@t\"}\n  \"y\": 1\n}", "1 // {type: \"@t\"}", "{\n  \"k\": 1 // {or: [\"@t\", \"@u\"]}\n}"}
 
+// repoRoot: the library tree the harness was built against (the launcher sets
+// VERIF_REPO when it is not /repo).
+func repoRoot() string {
+	if r := os.Getenv("VERIF_REPO"); r != "" {
+		return r
+	}
+	return "/repo"
+}
+
 var roles = []string{"schema", "type", "enum", "regex", "document"}
 
 const alphabet = "{}[]:,\"\\/*#@|-.01etna \n\ré"
@@ -454,7 +463,7 @@ type corpusItem struct {
 
 func loadCorpus(maxLen int) []corpusItem {
 	var out []corpusItem
-	root := "/repo/testdata"
+	root := repoRoot() + "/testdata"
 	filepath.Walk(root, func(p string, info os.FileInfo, err error) error {
 		if err != nil || info.IsDir() || info.Size() > int64(maxLen) || info.Size() == 0 {
 			return nil
